@@ -12,6 +12,6 @@ pub mod rng;
 pub mod sess;
 pub mod transport;
 
-#[cfg(not(miri))]
+#[cfg(not(any(miri, ivh_no_alloc_monitor)))]
 #[global_allocator]
 static GLOBAL: alloc::Counting = alloc::Counting;
